@@ -335,6 +335,34 @@ fn time_text(shape: u64, n: usize) -> String {
                 s.push_str(&format!("SITE s{} CLASS CORE ; SIZE 1 BY 2 ; END s{}\n", i, i));
             }
         }
+        6 => {
+            s.push_str("MACRO stm\n");
+            for i in 0..n / 5 {
+                s.push_str(&format!("PROPERTY k{} {} ;\n", i, i));
+            }
+            s.push_str("END stm\n");
+        }
+        7 => {
+            s.push_str("MACRO pst PIN p\n");
+            for i in 0..n / 5 {
+                s.push_str(&format!("PROPERTY k{} {} ;\n", i, i));
+            }
+            s.push_str("END p END pst\n");
+        }
+        8 => {
+            s.push_str("MACRO blk OBS\n");
+            for i in 0..n / 8 {
+                s.push_str(&format!("LAYER m{} ; RECT 0 0 1 1 ;\n", i % 9));
+            }
+            s.push_str("END END blk\n");
+        }
+        9 => {
+            s.push_str("PROPERTYDEFINITIONS\n");
+            for i in 0..n / 6 {
+                s.push_str(&format!("MACRO d{} INTEGER ;\n", i));
+            }
+            s.push_str("END PROPERTYDEFINITIONS\n");
+        }
         _ => {
             // long tokens: a long comment, a long name, a long polygon
             s.push_str("# ");
@@ -355,11 +383,11 @@ fn time_text(shape: u64, n: usize) -> String {
     s
 }
 fn time_case(src: &mut Src, ctx: &mut Ctx) -> Result<(), String> {
-    let shape = src.u64() % 6;
+    let shape = src.u64() % 10;
     let n = 40_000usize;
     let (a, b) = (time_text(shape, n), time_text(shape, 4 * n));
     ctx.nontrivial(hash_of(&shape));
-    let what = ["many macros", "many pins in one macro", "many rectangles in one block", "many property pairs in one statement", "many sites", "long comment, long name, long polygon"][shape as usize];
+    let what = ["many macros", "many pins in one macro", "many rectangles in one block", "many property pairs in one statement", "many sites", "long comment, long name, long polygon", "many PROPERTY statements in one macro", "many PROPERTY statements in one pin", "many LAYER blocks in one OBS", "many property definitions"][shape as usize];
     let (pa, pb) = (crate::engine::child::scratch_path("c11.time.a.lef"), crate::engine::child::scratch_path("c11.time.b.lef"));
     std::fs::write(&pa, &a).map_err(|e| e.to_string())?;
     std::fs::write(&pb, &b).map_err(|e| e.to_string())?;
@@ -375,7 +403,7 @@ fn time_case(src: &mut Src, ctx: &mut Ctx) -> Result<(), String> {
 fn run(run: &mut Run) {
     engine::journal::set_hang_ms(30_000);
     run.rule("Base texts: 40 LEF texts rendered from generated libraries (half with lexical variation, a quarter with non-ASCII comments) + the repository's macro.lef. (i) every prefix at every character boundary; (ii) every single-token fault at every token (delete, duplicate, swap, replace by each of 27 keywords/numbers (incl. the extremes of the 96-bit decimal type)/punctuation/unterminated string); (ii-b) floods: each replacement token and 21 short phrases repeated 50 000 times at four places of a base text, read on a 2 MB stack; (iii) proptest-driven insertion of multi-byte, odd-whitespace and delimiter characters anywhere; (iv) token soup of keywords, numbers, names and arbitrary Unicode scalars; allocation scaling. Oracle: LefLibrary::open returns (panics caught; aborts and hangs caught by the supervising process with a CPU limit), also on the error-report path; an Ok library can be written and re-read without a crash. Non-trivial = faulted text differs from its base; distinct by hash of the text.");
-    run.assume("termination = returns before the hang watchdog (30 s in flight) / 20 s CPU in isolation; linear time checked as allocation volume at most doubling when the input doubles and best-of-three thread CPU time growing at most 8-fold (+20 ms) when the input quadruples, on six text shapes");
+    run.assume("termination = returns before the hang watchdog (30 s in flight) / 20 s CPU in isolation; linear time checked as allocation volume at most doubling when the input doubles and best-of-three thread CPU time growing at most 8-fold (+20 ms) when the input quadruples, on ten text shapes");
     run.min_nontrivial = 1000;
     run.enumerate("prefixes", *prefix_table().last().unwrap(), &prefix_case);
     run.enumerate("token-faults", *fault_table().last().unwrap(), &token_fault_case);
@@ -383,7 +411,7 @@ fn run(run: &mut Run) {
     run.explore("odd-characters", run.tier.pick(150_000, 1_500_000), 16, &insertion_case);
     run.explore("token-soup", run.tier.pick(150_000, 1_500_000), 400, &soup_case);
     run.enumerate("alloc-scaling", run.tier.pick(4, 6), &scaling_case);
-    run.enumerate("time-scaling", 6, &time_case);
+    run.enumerate("time-scaling", 10, &time_case);
 }
 fn case(sub: &str) -> Option<Box<CaseFn<'static>>> {
     match sub {
